@@ -289,6 +289,8 @@ class Kernel:
         self.stall_reason = None
         self.budget_exceeded = False
         self.max_delay = 0.0
+        self.distinct_switch_points = set()
+        self.current_msg = None
         self.wall_deadline = None  # generous wall-clock watchdog; firing makes the run inconclusive, never a verdict
         self.notes = []
         self.last_progress = 0.0
@@ -538,6 +540,7 @@ class Kernel:
         self.fingerprint.append((rec.addr.label, cls_name))
         prev = self.current_proc
         self.current_proc = rec
+        self.current_msg = cls_name
         try:
             try:
                 rec.inst.receiveMessage(msg, sender)
